@@ -91,9 +91,9 @@ func ProbesBusy() bool {
 	return false
 }
 
-// Reset clears all hook state (between harness scenarios).
+// Reset clears the registered probes (between harness scenarios). The busy
+// counter is left alone: work that is still in flight will decrement it.
 func Reset() {
-	atomic.StoreInt64(&busy, 0)
 	probesLk.Lock()
 	probes = map[any]func() bool{}
 	probesLk.Unlock()
